@@ -15,7 +15,7 @@ META = {
             "with width/overflow tracking, for ALL 2^n argument values; exact where no intermediate overflowed, low determined "
             "bits otherwise, undetermined rows only counted. truth_table() is compared on all rows for n <= %d. Non-trivial = "
             "some return bit non-constant and depending on >= 2 input bits; distinct = distinct expected truth tables." % TT_MAX_N,
-    "bound": {"quick": "B <=3 ops; I1 depth 1 over 5 width pairs + depth 2 over reduced leaves (2,2); S, T, R quick lists; M 1 516 programs",
+    "bound": {"quick": "B <=3 ops; I1 depth 1 over 5 width pairs + depth 2 over reduced leaves (2,2); S, T, R quick lists; M 1 840 programs",
               "thorough": "B <=4 ops; I1 depth 2 over more width pairs; S, T, R thorough lists"},
     "assumptions": [
         "CPython's evaluation of the generated source is the meaning of the program; RefInt width rules are the documented ones "
